@@ -60,10 +60,11 @@ type Run struct {
 	Info    map[string]interface{} // scenario parameters (sample output)
 	NonTriv bool
 
-	cleanup  []func()
-	hook     *spinHook
-	bubble   string // id of this run's synctest bubble
-	bodyDone atomic.Bool
+	cleanup    []func()
+	hook       *spinHook
+	bubble     string // id of this run's synctest bubble
+	bodyDone   atomic.Bool
+	bodyDoneCh chan struct{}
 	// DgramFilter, if set, sees every datagram about to be delivered under any policy; true = consumed.
 	DgramFilter  func(seq int) bool
 	yields       int
@@ -389,6 +390,7 @@ var logSetup sync.Once
 // down afterwards. It returns the number of goroutines that were still
 // blocked when the bubble ended (leaked by the code under test).
 func Execute(t *testing.T, r *Run, body func(r *Run)) (leaked int, hung bool) {
+	r.bodyDoneCh = make(chan struct{})
 	logSetup.Do(func() {
 		log.SetOutput(io.Discard)
 		stdlog.SetOutput(io.Discard) // net/http writes handshake errors to the standard logger
@@ -462,6 +464,7 @@ func Execute(t *testing.T, r *Run, body func(r *Run)) (leaked int, hung bool) {
 				}()
 				body(r)
 				r.bodyDone.Store(true)
+				close(r.bodyDoneCh)
 				r.simEnd = time.Since(r.Start)
 				r.freezeDigest()
 			}()
@@ -472,8 +475,11 @@ func Execute(t *testing.T, r *Run, body func(r *Run)) (leaked int, hung bool) {
 	// teardown) keeps the bubble alive: give up after a minute of real time, or
 	// sooner when it is also eating memory (the collector is off during a run).
 	limit := realAfter(60 * time.Second)
-	tick := time.NewTicker(250 * time.Millisecond)
-	defer tick.Stop()
+	// (The memory guard only ticks once the body is done: a goroutine outside the bubble that wakes on a real
+	// timer while the run is in progress is put in front of the bubble's runnable goroutines and changes their
+	// order - which made same-choice runs diverge.)
+	var tickC <-chan time.Time
+	bodyDone := r.bodyDoneCh
 wait:
 	for {
 		select {
@@ -482,7 +488,12 @@ wait:
 		case <-limit:
 			hung = true
 			break wait
-		case <-tick.C:
+		case <-bodyDone:
+			bodyDone = nil
+			tick := time.NewTicker(250 * time.Millisecond)
+			defer tick.Stop()
+			tickC = tick.C
+		case <-tickC:
 			var ms runtime.MemStats
 			runtime.ReadMemStats(&ms)
 			if ms.HeapAlloc > 2<<30 && r.bodyDone.Load() {
